@@ -41,6 +41,120 @@ pub fn cmp_opts(opts: &Opts, judge_known: bool) -> CmpOpts {
     }
 }
 
+/// Known class KF-C01-3: format_strings breaks a string literal right after the backslash that
+/// starts an escape (`\\`, `\n`, `\"`), so the continuation backslash pairs up with it: the output
+/// has an even, non-empty run of backslashes directly before a line end where the input has none.
+fn format_strings_splits_escape(src: &str, out: &str) -> bool {
+    fn hits(t: &str) -> usize {
+        let b = t.as_bytes();
+        let mut n = 0;
+        for (i, ch) in b.iter().enumerate() {
+            if *ch == b'\n' {
+                let mut k = 0;
+                while k < i && b[i - 1 - k] == b'\\' {
+                    k += 1;
+                }
+                if k > 0 && k % 2 == 0 {
+                    n += 1;
+                }
+            }
+        }
+        n
+    }
+    hits(out) > hits(src)
+}
+
+/// Known class KF-C01-4: format_strings breaks a string inside the blanks that end it; the blanks
+/// that land on the continuation line are skipped by the language together with the indentation,
+/// so the literal loses them: the output has a line continuation whose next line holds nothing but
+/// blanks and the closing quote.
+fn format_strings_swallows_trailing_blanks(src: &str, out: &str) -> bool {
+    fn hits(t: &str) -> usize {
+        let b = t.as_bytes();
+        let mut n = 0;
+        for i in 0..b.len() {
+            if b[i] == b'\n' {
+                let mut k = 0;
+                while k < i && b[i - 1 - k] == b'\\' {
+                    k += 1;
+                }
+                if k % 2 == 1 {
+                    let mut j = i + 1;
+                    while j < b.len() && (b[j] == b' ' || b[j] == b'\t') {
+                        j += 1;
+                    }
+                    if j < b.len() && b[j] == b'"' {
+                        n += 1;
+                    }
+                }
+            }
+        }
+        n
+    }
+    hits(out) > hits(src)
+}
+
+/// Programs whose substance is string literals that do not fit their line: words, paths, URLs and
+/// escapes (`\\`, `\n`, `\t`, `\"`, `\'`, `\0`, `\x41`, `\u{e9}`) with and without blanks between
+/// them, as let initialisers, call and macro arguments, under format_strings.
+fn gen_string_program(c: &mut Choices<'_>) -> Value {
+    const WORDS: &[&str] = &["alpha", "Users", "someone", "AppData", "x", "configuration", "naïve", "日本語", "tool.exe", "a-b", "k=v", "100%"];
+    const ESCAPES: &[&str] = &["\\\\", "\\n", "\\t", "\\\"", "\\'", "\\0", "\\x41", "\\u{e9}", "\\r\\n"];
+    const SEPS: &[&str] = &[" ", " ", "", "/", "-", ".", "::", ", ", "  "];
+    let mut src = String::from("fn main() {\n");
+    let n_stmts = 1 + c.below(3);
+    for i in 0..n_stmts {
+        let mut lit = String::new();
+        let style = c.below(4); // 0 prose, 1 path with escapes, 2 dense escapes, 3 url
+        let target = 20 + c.below(140);
+        if style == 3 {
+            lit.push_str("see https://example.org/");
+        }
+        while lit.chars().count() < target {
+            match style {
+                0 => {
+                    lit.push_str(*c.pick(WORDS));
+                    lit.push_str(if c.chance(1, 8) { *c.pick(ESCAPES) } else { " " });
+                }
+                1 => {
+                    lit.push_str(*c.pick(WORDS));
+                    lit.push_str(*c.pick(&["\\\\", "\\\\", "/", "\\n"]));
+                }
+                2 => {
+                    lit.push_str(*c.pick(ESCAPES));
+                    if c.chance(1, 3) {
+                        lit.push_str(*c.pick(WORDS));
+                    }
+                    lit.push_str(*c.pick(SEPS));
+                }
+                _ => {
+                    lit.push_str(*c.pick(WORDS));
+                    lit.push_str(*c.pick(&["/", "?", "&", "=", " "]));
+                }
+            }
+        }
+        match c.below(5) {
+            0 => src.push_str(&format!("    let s{i} = \"{lit}\";\n")),
+            1 => src.push_str(&format!("    call(\"{lit}\", {i});\n")),
+            2 => src.push_str(&format!("    println!(\"{lit}\", s);\n")),
+            3 => src.push_str(&format!("    let t{i} = (\"{lit}\", b\"bytes\\x00\");\n")),
+            _ => src.push_str(&format!("    obj.method(\"{lit}\").other(\"short\");\n")),
+        }
+    }
+    src.push_str("}\n");
+    let mut opts: Opts = vec![("format_strings".into(), "true".into()), ("max_width".into(), (20 + c.below(110)).to_string())];
+    if c.chance(1, 5) {
+        opts.push(("hard_tabs".into(), "true".into()));
+    }
+    if c.chance(1, 5) {
+        opts.push(("indent_style".into(), "Visual".into()));
+    }
+    if c.chance(1, 4) {
+        opts.push(("style_edition".into(), (*c.pick(&["2015", "2021", "2024"])).to_string()));
+    }
+    json!({"src": src, "opts": opts_to(&opts), "origin": "prog", "layout": 0, "tags": ["macro-program", "string-program"]})
+}
+
 /// The two token texts of a "token mismatch: input `A` vs output `B`" message.
 fn mismatch_pair(msg: &str) -> Option<(String, String)> {
     let first = msg.lines().next()?;
@@ -156,7 +270,7 @@ impl Property for C01 {
         }
     }
     fn rule(&self) -> &'static str {
-        "corpus grid cells (chunk x layout x configuration) and generated programs; judged when rustfmt reports no error; oracle: (1) the output parses under the same edition (independent rustc_parse), (2) the significant-token sequences of input and output (rustc_lexer; doc comments by content) are equal up to the closed list of C01 edits, each checked against its local context, after identical canonicalisation of import leaves, mod/extern-crate runs, derive lists and nested parentheses, (3) the parenthesis-free pretty-printed ASTs are equal under the same comparison without parenthesis/brace edits; non-trivial = the output differs from the input and spans several lines; distinct by case content"
+        "corpus grid cells (chunk x layout x configuration) and generated programs (macro programs, general grammar programs, programs of over-long string literals with escapes under format_strings); judged when rustfmt reports no error; oracle: (1) the output parses under the same edition (independent rustc_parse), (2) the significant-token sequences of input and output (rustc_lexer; doc comments by content) are equal up to the closed list of C01 edits, each checked against its local context, after identical canonicalisation of import leaves, mod/extern-crate runs, derive lists and nested parentheses, (3) the parenthesis-free pretty-printed ASTs are equal under the same comparison without parenthesis/brace edits; non-trivial = the output differs from the input and spans several lines; distinct by case content"
     }
     fn assumptions(&self) -> Vec<&'static str> {
         vec![
@@ -177,6 +291,9 @@ impl Property for C01 {
         Some(cell_case(&cell))
     }
     fn generate(&self, c: &mut Choices<'_>, _g: &GenCtx) -> Value {
+        if std::env::var("VP_C01_GEN").is_err() && c.chance(1, 12) {
+            return gen_string_program(c);
+        }
         if std::env::var("VP_C01_GEN").is_err() && c.chance(1, 3) {
             // registered tiers: programs made of macro definitions and invocations, re-laid out
             let text = crate::gen::macros::gen_macro_program(c);
@@ -250,6 +367,22 @@ impl Property for C01 {
             f.nontrivial = true;
             f
         };
+        // known class (KF-C01-3): format_strings breaks a string inside an escape sequence
+        if opt(&opts, "format_strings") == Some("true") && format_strings_splits_escape(src, &o1.text) {
+            if !judge_known {
+                o.excluded.push("known-class:format-strings-splits-escape".into());
+                return o;
+            }
+            return Outcome::fail("tokens/format-strings-splits-escape", format!("format_strings broke a string literal between a backslash and the character it escapes\n{src}\n--->\n{}", o1.text)).nontrivial(true);
+        }
+        // known class (KF-C01-4): format_strings breaks a string inside its trailing blanks
+        if opt(&opts, "format_strings") == Some("true") && format_strings_swallows_trailing_blanks(src, &o1.text) {
+            if !judge_known {
+                o.excluded.push("known-class:format-strings-swallows-trailing-blanks".into());
+                return o;
+            }
+            return Outcome::fail("tokens/format-strings-swallows-trailing-blanks", format!("format_strings moved blanks that end a string literal onto a continuation line, where they no longer count\n{src}\n--->\n{}", o1.text)).nontrivial(true);
+        }
         // (1) the output parses under the same edition
         if !parses(&o1.text, &edition) {
             let diags = crate::parse::LAST_DIAGS.lock().map(|d| d.clone()).unwrap_or_default();
